@@ -15,6 +15,8 @@ HARNESS_EVENTS = {"config", "popen", "psend", "pclose", "cut", "pnote", "peof", 
 def fallback(ev):
     e, p = ev.get("ev"), ev.get("pkt", {})
     t = p.get("t")
+    if e == "bsend_err" and str(ev.get("err", "")).startswith("encode:"):
+        return "C14"      # the broker accepted something it cannot forward: a well-behaved receiver loses its connection
     if e in ("bsend", "bsend_err"):
         if t in ("CONNACK", "SUBACK", "UNSUBACK", "PINGRESP"):
             return "C20"
